@@ -51,7 +51,7 @@ func genSrv(t *rapid.T) SrvCase {
 	}
 	c.Cfg.WMs, c.Cfg.BanMs = 200, 150
 	c.Cfg.CleanupMs = rapid.SampledFrom([]int{50, 3600000}).Draw(t, "cleanup")
-	c.Cfg.Rate = rapid.SampledFrom([]int{2, 10, 40}).Draw(t, "rate")
+	c.Cfg.Rate = rapid.SampledFrom([]int{2, 10, 40, 100}).Draw(t, "rate")
 	c.Cfg.Burst = rapid.SampledFrom([]int{1, 3, 6}).Draw(t, "burst")
 	n := rapid.IntRange(5, 13).Draw(t, "nsteps")
 	ops := []string{"unknown", "unknown", "unknown", "wrong", "wrong", "nochallenge", "nochallenge", "login", "login", "login", "anon", "anon", "anon", "bl-add", "bl-add", "bl-rm", "wl-add", "wl-rm",
@@ -64,6 +64,12 @@ func genSrv(t *rapid.T) SrvCase {
 	if rapid.Bool().Draw(t, "parkFirst") {
 		// directed: connections parked before anything else happens to the address
 		c.Steps = append(c.Steps, SrvStep{Op: "park", Addr: 0, AtMs: 0, N: rapid.IntRange(1, 3).Draw(t, "nparked")})
+	}
+	if refillMs := 1000*c.Cfg.Burst/c.Cfg.Rate + 10; c.Cfg.Burst >= 2 && refillMs <= 320 && rapid.IntRange(0, 2).Draw(t, "idleThenBurst") == 0 {
+		// directed rate history on the second address: one registration creates the bucket and leaves tokens in it,
+		// the address stays idle for a full refill, then asks for far more than the burst in a row
+		c.Steps = append(c.Steps, SrvStep{Op: "anon", Addr: 1, AtMs: 0, N: 1}, SrvStep{Op: "anon", Addr: 1, AtMs: refillMs, N: 2*c.Cfg.Burst + 2})
+		T = refillMs
 	}
 	for i := 0; i < n && T < 1100; i++ {
 		s := SrvStep{Op: rapid.SampledFrom(ops).Draw(t, "op")}
